@@ -325,5 +325,5 @@ static void one_case(vh::Ctx & c, uint64_t idx)
 
 int main(int argc, char ** argv)
 {
-  return vh::run(argc, argv, "C12", {30000, 6000000}, one_case);
+  return vh::run(argc, argv, "C12", {120000, 6000000}, one_case);
 }
